@@ -39,9 +39,9 @@ def deadline_writes(R):
     return out
 
 
-def run(cx):
+def deadline_rule(cx, iid):
     R = cx.R
-    with cx.instance("C10.a", "T4 SIBLING", "every write of an active deadline is add(now, cfg.active_timeout_ms) with now fed from the step's clock", floor=5) as inst:
+    with cx.instance(iid, "T4 SIBLING", "every write of an active deadline is add(now, cfg.active_timeout_ms) with now fed from the step's clock", floor=5) as inst:
         for b, loc, e, kind in deadline_writes(R):
             s = show(e)
             inst.site(b, loc, "timeout_time_ms = " + s)
@@ -52,6 +52,11 @@ def run(cx):
             ok, w = now_provenance(cx, b, int(m.group(1) or m.group(2)))
             if not ok:
                 inst.violation(b.path, "timeout_time_ms now-provenance", "the `now` used for the deadline is not the step's clock: " + w, at=b.span_at(loc))
+
+
+def run(cx):
+    R = cx.R
+    deadline_rule(cx, "C10.a")
 
     with cx.instance("C10.b", "T2 PAIR", "each frame handler's Active arm refreshes the deadline on all paths", floor=6) as inst:
         for fn, callee in HANDLERS:
@@ -278,6 +283,11 @@ def run(cx):
     # handshake / disconnect retries come due in time order: the timer heap is earliest-first
     from props.shared import heap_order
     heap_order(cx, "C10.j", ["event"])
+    # every deadline is a difference of clock readings: millisecond resolution, no narrowing; and a frame that is
+    # already in the socket when step() runs is booked before the deadlines are tested
+    from props.shared import clock_exact, socket_drain
+    clock_exact(cx, "C10.o")
+    socket_drain(cx, "C10.p")
     from props.shared import active_timeout_sweep
     active_timeout_sweep(cx, "C10.k")
     # the keepalive cadence is max(rto, 2000 ms) and the RTO is 2*MSS/X when the rate is low: a rate computed from an
